@@ -208,6 +208,15 @@ def _tree_types(types):
     return (dict, Dict, dictattr) if types is None else as_tuple(types)
 
 
+def _tree_copy(tree, types):
+    """copies the branches (not the leaves) of a tree, so that writing into the copy never reaches the original"""
+    res = copy(tree)
+    for key, value in res.items():
+        if isinstance(value, types):
+            res[key] = _tree_copy(value, types)
+    return res
+
+
 def _tree_setitem(tree, item, base, ignore, types):
     if len(item)<2:
         raise ValueError('node item too short %s'%item)
@@ -480,7 +489,7 @@ def items_to_tree(items, tree = None, raise_if_duplicate = True, ignore = None, 
     if tree is None:
         tree = dictattr()
     else:
-        tree = copy(tree)
+        tree = _tree_copy(tree, types)
     base = type(tree)
     ignore = as_list(ignore)
     for item in items:
